@@ -290,7 +290,7 @@ def flatten_phi(e):
     return [e]
 
 
-ADAPTORS = ("Iterator::map", "Iterator::filter", "Iterator::filter_map", "Iterator::enumerate", "Iterator::rev",
+ADAPTORS = ("Iterator::inspect", "Iterator::map", "Iterator::filter", "Iterator::filter_map", "Iterator::enumerate", "Iterator::rev",
             "Iterator::zip", "Iterator::take", "Iterator::take_while", "Iterator::skip", "Iterator::cloned",
             "Iterator::copied", "LimitSort::limit_sort_unstable", "LimitSort::limit_sort",
             "IntoIterator::into_iter", "<impl [T]>::iter", "<impl [T]>::iter_mut", "Vec::iter", "Vec::drain",
